@@ -328,7 +328,12 @@ inline void emplace_n(T *pos, SizeType n, Args &&...args) {
   } else {
     ElemStorage<T> e;
     amc::construct_at(e.ptr(), std::forward<Args>(args)...);
-    shift_right(pos, n);
+    try {
+      shift_right(pos, n);
+    } catch (...) {
+      amc::destroy_at(e.ptr());
+      throw;
+    }
     try {
       relocate_after_shift(e.ptr(), pos);
     } catch (...) {
@@ -932,7 +937,12 @@ class DynamicVector : public DynamicVectorBaseTypeDispatcher<T, Alloc, SizeType,
           throw;
         }
       } else {
-        shift_right(pos, nElemsToShift);
+        try {
+          shift_right(pos, nElemsToShift);
+        } catch (...) {
+          amc::destroy_at(e.ptr());
+          throw;
+        }
         try {
           relocate_after_shift(e.ptr(), pos);
         } catch (...) {
